@@ -294,9 +294,10 @@ pub fn judge(po: PatchOut, basis: &[u8], d: &Delta, eng: &str, faults: &[Fault],
 fn lib_one(seed: u64, idx: u64, rep: &mut Report, profile: &str) {
     let mut rng = Rng::derive(seed, 5, idx);
     rep.evaluations += 1;
-    let bs = *rng.pick(&CLI_BS[..5]);
-    let c = gen_case(&mut rng, bs, 40 * 1024);
-    let other = gen_case(&mut rng, bs, 40 * 1024).basis;
+    let tiny = crate::util::tiny();
+    let bs = if tiny { *rng.pick(&[4usize, 8, 16]) } else { *rng.pick(&CLI_BS[..5]) };
+    let c = gen_case(&mut rng, bs, if tiny { 128 } else { 40 * 1024 });
+    let other = gen_case(&mut rng, bs, if tiny { 128 } else { 40 * 1024 }).basis;
     let Caught::Ok(Ok(sig)) = sig_generate(&c.basis, bs) else { return };
     let Caught::Ok(Ok(d0)) = delta_sync(&c.source, &sig) else { return };
     let had_copy = d0.ops.iter().any(DeltaOp::is_copy);
@@ -457,7 +458,9 @@ fn cli_one(seed: u64, idx: u64, work: &Path, rep: &mut Report) {
     let fc = faults.iter().map(|f| f.class).collect::<Vec<_>>().join("+");
     let ctx = json!({"seed": seed, "cli_case": idx, "faults": fc, "bs": d.block_size});
     rep.count("cli_patch_runs", 1);
-    if let Some(sig) = r.signal {
+    if r.code == Some(97) && crate::c01::valgrind() {
+        rep.violation("C05|cli|valgrind-memcheck-error", json!({"ctx": ctx, "stderr": r.stderr.chars().take(600).collect::<String>()}));
+    } else if let Some(sig) = r.signal {
         let sigc = if bs_ok { "valid-bs" } else { "invalid-bs" };
         rep.violation(&format!("C05|cli|died-by-signal-{sig}|{sigc}"), json!({"ctx": ctx, "stderr": r.stderr.chars().take(300).collect::<String>()}));
     } else if r.code == Some(0) {
@@ -480,7 +483,9 @@ pub fn run(seed: u64, thorough: bool, cases: Option<u64>, work: &Path, stage: &s
     if stage == "lib" || stage == "all" {
         let n = cases.unwrap_or(if thorough { 150_000 } else { 4000 });
         rep.merge(par_cases(n, |i, r| lib_one(seed, i, r, profile)));
-        rep.merge(par_cases(if thorough { 400 } else { 40 }, |i, r| exhaustive_small(seed, i, r, profile)));
+        if !crate::util::tiny() {
+            rep.merge(par_cases(if thorough { 400 } else { 40 }, |i, r| exhaustive_small(seed, i, r, profile)));
+        }
     }
     if stage == "cli" || stage == "all" {
         let n = if thorough { 5000 } else { 600 };
